@@ -63,11 +63,27 @@ class _Purity(DefaultVisitor):
                 # any other foreign callable (e.g. `print`) -> impure by default
                 raise _ImpureError(f'Impure: call to foreign function {e}')
 
+    def _is_local_list(self, d) -> bool:
+        """Is the list defined by `d` provably allocated by this function
+        (so that mutating it cannot be observed by the caller)?  Follows
+        in-place updates back to the allocation; an alias of another
+        variable (`ws = zs`), an argument, a free variable, a call result or
+        a merge of definitions is not provably local."""
+        while isinstance(d, AssignDef) and isinstance(d.site, IndexedAssign) and d.prev is not None:
+            d = self.def_use.defs[d.prev]
+        return (
+            isinstance(d, AssignDef)
+            and isinstance(d.site, Assign)
+            and isinstance(d.site.target, Id)
+            and isinstance(d.site.expr, ListExpr | ListComp | ListSlice | Range1 | Range2 | Range3 | Empty | Zip | Enumerate)
+        )
+
     def _visit_indexed_assign(self, stmt: IndexedAssign, ctx: None):
         super()._visit_indexed_assign(stmt, ctx)
         d = self.def_use.find_def_from_use(stmt)
-        if isinstance(d, AssignDef) and isinstance(d.site, Argument | FuncDef):
-            # modifying an argument or a free variable
+        if not self._is_local_list(d):
+            # possibly modifying an argument or a free variable (directly,
+            # through an alias, or after a merge)
             raise _ImpureError(f'Impure: Indexed assignment {stmt}')
 
 
